@@ -135,6 +135,9 @@ type c45Node struct {
 	heldChalFrom int
 	heldPing     *Ping  // PING received and decoded, PONG not sent yet
 	heldPingWant []byte // request id the sender put into that PING
+	// another datagram was decoded by this codec since the held object was decoded (part of the state key: the
+	// answer built from a held object must not depend on it)
+	heldChalDirty, heldPingDirty bool
 }
 
 type c45Sys struct {
@@ -150,6 +153,8 @@ type c45Sys struct {
 	msgAB, msgBA, hsAB *c45Pkt
 	final              bool
 	sweep              bool // run the byte-flip sweep on legitimately decoded message packets
+	probe              bool // after every successful Decode, decode a junk datagram and require the result unchanged
+	sentChal           map[int]*Whoareyou // every challenge as its sender encoded it, by abstract id
 }
 
 func c45NewSys(r *mc.R) *c45Sys {
@@ -297,8 +302,15 @@ func (s *c45Sys) deliver(xi int, p *c45Pkt, fromAddr string) (Packet, error) {
 	before := s.fingerprint(x)
 	src, node, pkt, err := x.codec.Decode(bytes.Clone(p.raw), fromAddr)
 	desc := fmt.Sprintf("%s packet %s->%s delivered to %s from %s", p.kind, c45Names[p.from], c45Names[p.to], c45Names[xi], fromAddr)
-	// result ownership: whatever Decode handed out must not change when the same codec decodes the next datagram
-	if err == nil {
+	if x.heldChal != nil {
+		x.heldChalDirty = true
+	}
+	if x.heldPing != nil {
+		x.heldPingDirty = true
+	}
+	// result ownership (grid systems): whatever Decode handed out must not change when the same codec decodes the
+	// next datagram. The BFS does not probe, there the interleaving events do the clobbering.
+	if err == nil && s.probe {
 		snap := c45Snapshot(pkt, node)
 		x.codec.Decode(c45Junk(), c45OtherAddr)
 		if after := c45Snapshot(pkt, node); !bytes.Equal(snap, after) {
@@ -333,7 +345,7 @@ func (s *c45Sys) deliver(xi int, p *c45Pkt, fromAddr string) (Packet, error) {
 			s.r.Outcome("message:decoded")
 		}
 		if ping, ok := pkt.(*Ping); ok && xi == c45B && p.from == c45A {
-			x.heldPing, x.heldPingWant = ping, bytes.Clone(p.msg.(*Ping).ReqID)
+			x.heldPing, x.heldPingWant, x.heldPingDirty = ping, bytes.Clone(p.msg.(*Ping).ReqID), false
 		}
 	case p.kind == "wru" && p.to == xi:
 		w, ok := pkt.(*Whoareyou)
@@ -455,6 +467,10 @@ func (s *c45Sys) whoareyou(from, to int) (*c45Pkt, error) {
 		return nil, fmt.Errorf("%s: Encode(WHOAREYOU) failed: %v", c45Names[from], err)
 	}
 	f.chal[c45PeerKey{to, c45Idents[to].addr}] = &c45Chal{id: s.chals, sent: s.clock.Now(), w: w}
+	if s.sentChal == nil {
+		s.sentChal = map[int]*Whoareyou{}
+	}
+	s.sentChal[s.chals] = w
 	return &c45Pkt{raw: bytes.Clone(raw), from: from, to: to, kind: "wru", chal: s.chals, msg: w, nonce: nonce}, nil
 }
 
@@ -477,8 +493,21 @@ func (s *c45Sys) answer(xi, peer int, w *Whoareyou, chalID int) (*c45Pkt, error)
 	x.sess[c45PeerKey{peer, c45Idents[peer].addr}] = s.kids
 	nn := nonce
 	x.lastNonce[peer] = &nn
-	return &c45Pkt{raw: bytes.Clone(raw), from: xi, to: peer, kind: "hs", kid: s.kids, chal: chalID, msg: msg, nonce: nonce,
-		withRe: w.RecordSeq < c45Idents[xi].ln.Node().Seq()}, nil
+	hs := &c45Pkt{raw: bytes.Clone(raw), from: xi, to: peer, kind: "hs", kid: s.kids, chal: chalID, msg: msg, nonce: nonce,
+		withRe: w.RecordSeq < c45Idents[xi].ln.Node().Seq()}
+	// The answer to challenge c must verify against c exactly as its sender encoded it, whatever the answering
+	// codec decoded in between. Checked here, at the transition that produces the packet, on a scratch codec of
+	// the challenger that holds nothing but that challenge (the exploration's codecs are not disturbed).
+	if sent := s.sentChal[chalID]; sent != nil {
+		scratch := NewCodec(c45Idents[peer].ln, c45Idents[peer].key, new(mclock.Simulated), nil)
+		cp := *sent
+		scratch.sc.storeSentHandshake(c45ID(xi), c45Idents[xi].addr, &cp)
+		src, _, pkt, derr := scratch.Decode(bytes.Clone(hs.raw), c45Idents[xi].addr)
+		if derr != nil || !c45SameMsg(pkt, msg) || src != c45ID(xi) {
+			return nil, fmt.Errorf("%s answered challenge c%d, but the handshake packet does not verify against that challenge as %s sent it: %v, err %v", c45Names[xi], chalID, c45Names[peer], pkt, derr)
+		}
+	}
+	return hs, nil
 }
 
 func (s *c45Sys) nextPing() Packet {
@@ -608,7 +637,7 @@ func (s *c45Sys) Apply(op int) error {
 			return err
 		}
 		a := s.nodes[c45A]
-		a.heldChal, a.heldChalID, a.heldChalFrom = pkt.(*Whoareyou), w.chal, c45B // the decoded object itself
+		a.heldChal, a.heldChalID, a.heldChalFrom, a.heldChalDirty = pkt.(*Whoareyou), w.chal, c45B, false // the decoded object itself
 		return s.crossCheck()
 	case "a:answer":
 		a := s.nodes[c45A]
@@ -745,10 +774,10 @@ func (s *c45Sys) Key() string {
 	}
 	fmt.Fprintf(&sb, "A.hasReq=%v nextChalParity=%d ", a.lastNonce[c45B] != nil, (s.chals+1)%2)
 	if w := a.heldChal; w != nil {
-		fmt.Fprintf(&sb, "A.heldChal=c%d matchesLastReq=%v ", cid(a.heldChalID), a.lastNonce[c45B] != nil && *a.lastNonce[c45B] == w.Nonce)
+		fmt.Fprintf(&sb, "A.heldChal=c%d matchesLastReq=%v dirty=%v ", cid(a.heldChalID), a.lastNonce[c45B] != nil && *a.lastNonce[c45B] == w.Nonce, a.heldChalDirty)
 	}
 	if b.heldPing != nil {
-		sb.WriteString("B.heldPing ")
+		fmt.Fprintf(&sb, "B.heldPing dirty=%v ", b.heldPingDirty)
 	}
 	if p := s.msgAB; p != nil {
 		fmt.Fprintf(&sb, "msgAB=%s/%d ", p.kind, kid(p.kid))
@@ -849,6 +878,7 @@ func c45Replay(r *mc.R, name string) {
 func c45Handshake(r *mc.R, msg Packet, knownRecord bool) (*c45Sys, *c45Pkt, error) {
 	s := c45NewSys(r)
 	s.sweep = false
+	s.probe = true
 	if knownRecord {
 		s.chals = 1
 	}
@@ -1123,7 +1153,7 @@ func TestVerif_C45_wire(t *testing.T) {
 					c := map[string]any{"grid": "tamper-whoareyou", "offset": off, "mask": int(m)}
 					r.Case(c, func() error {
 						s := c45NewSys(r)
-						s.sweep = false
+						s.sweep, s.probe = false, true
 						p, err := s.send(c45A, c45B, &Ping{ReqID: []byte{1}, ENRSeq: 1})
 						if err != nil {
 							return err
